@@ -149,6 +149,13 @@ func (s *S3Proxy) CreateBucket(ctx context.Context, input *s3.CreateBucketInput,
 	}
 	_, err := s.client.CreateBucket(ctx, input)
 	if err != nil {
+		var ae smithy.APIError
+		if errors.As(err, &ae) && ae.ErrorCode() == "BucketAlreadyOwnedByYou" && !s.isBucketOwner(ctx, input.Bucket, acl) {
+			// every proxied bucket belongs to the endpoint account: whether
+			// it is the requester's own is decided by the owner the gateway
+			// recorded for it
+			return s3err.GetAPIError(s3err.ErrBucketAlreadyExists)
+		}
 		return handleError(err)
 	}
 
@@ -165,6 +172,21 @@ func (s *S3Proxy) CreateBucket(ctx context.Context, input *s3.CreateBucketInput,
 		},
 	})
 	return handleError(err)
+}
+
+// isBucketOwner reports whether the owner recorded for the bucket is the
+// owner named in acl (the acl a create bucket request of that account
+// would store). Without a readable record the endpoint's answer stands.
+func (s *S3Proxy) isBucketOwner(ctx context.Context, bucket *string, acl []byte) bool {
+	stored, err := s.GetBucketAcl(ctx, &s3.GetBucketAclInput{Bucket: bucket})
+	if err != nil || len(stored) == 0 {
+		return true
+	}
+	var have, want auth.ACL
+	if json.Unmarshal(stored, &have) != nil || json.Unmarshal(acl, &want) != nil {
+		return true
+	}
+	return have.Owner == want.Owner
 }
 
 func (s *S3Proxy) DeleteBucket(ctx context.Context, bucket string) error {
